@@ -6,6 +6,7 @@ import io
 from vf.core import build_scaffolds, dump_assemblies, exc_site, rng_for
 from vf.gen import asm as gasm
 from vf.gen import pv as gpv
+from vf.gen import tag as gtag
 
 JOIN_GAP = ["G", 200, "scaffold"]
 
@@ -34,6 +35,24 @@ def make_case(seed, shard_index, i, kind, opts=None):
         pt, l_h = gpv.gen_hostile(rng, t, inp)
         case["pretext"] = pt
         labels = l_in | l_h
+    elif kind in ("tag", "vanish"):
+        pt, design = gtag.gen_single(rng, t, inp, vanishing=(kind == "vanish"))
+        case["pretext"] = pt
+        case["pieces"] = design["pieces"]
+        case["design"] = {k: v for k, v in design.items() if k != "pieces"}
+        case["prefix"] = design["prefix"]
+        labels = l_in | set(design["labels"])
+    elif kind == "tag2":
+        res = None
+        while res is None:
+            res = gtag.gen_two_hap(rng, t)
+        inp, pt, design = res
+        case["input"] = inp
+        case["pretext"] = pt
+        case["pieces"] = design["pieces"]
+        case["design"] = {k: v for k, v in design.items() if k != "pieces"}
+        case["prefix"] = design["prefix"]
+        labels = set(design["labels"])
     else:
         raise ValueError(kind)
     case["via_text"] = rng.random() < opts.get("via_text", 0.15)
